@@ -648,6 +648,14 @@ fn c30_one(o: &Opts, out: &mut Out, run: &mut u64, rng: &mut StdRng, k: u64, fir
         vec![op::gtf_args(r(0), RegId::ZERO, GTFArgs::ScriptData), op::addi(r(2), r(0), D_ASSET),
              op::call(r(0), RegId::ZERO, r(2), RegId::CGAS), op::ret(RegId::RET)]
     } else { body(&chain, false) };
+    // every third run executes on an interpreter that has just run ANOTHER transaction listing the outsider as an input
+    // contract: the inputs of an earlier transaction must not authorise anything in the next one
+    let warm: Option<Checked<Script>> = if k % 3 == 1 {
+        tb.start_script(vec![op::ret(RegId::ONE)], vec![]).gas_price(0).script_gas_limit(10_000)
+            .contract_input(prober).contract_input(friend).contract_input(outsider)
+            .fee_input().contract_output(&prober).contract_output(&friend).contract_output(&outsider);
+        catch(std::panic::AssertUnwindSafe(|| tb.build())).ok()
+    } else { None };
     tb.start_script(script, data).gas_price(0).script_gas_limit(30_000).contract_input(prober).contract_input(friend)
         .coin_input(asset, 500).change_output(asset).fee_input().contract_output(&prober).contract_output(&friend);
     let checked = match catch(std::panic::AssertUnwindSafe(|| tb.build())) { Ok(c) => c, Err(m) => { out.ev(json!({"ev": "SetupFailed", "msg": m})); return } };
@@ -658,6 +666,7 @@ fn c30_one(o: &Opts, out: &mut Out, run: &mut u64, rng: &mut StdRng, k: u64, fir
     let extra = merge(json!({"driver": driver, "probe": first.0, "target": first.1, "ctx": if in_contract { "contract" } else { "script" }}),
                       world_json(&w.storage, &[prober, friend, outsider], &[asset, AssetId::zeroed()], &[], &[prober, friend]));
     let mut vm = new_vm_rec(&w);
+    if let Some(c) = warm { let _ = crate::vmcore::run_plain(&mut vm, &w, c); }
     record_run_acc(out, *run, &mut vm, &w, checked, extra, 20_000);
 }
 
